@@ -30,3 +30,6 @@ package protocols
 //@   iteration 0: error_names_this_step: emitted("self._raise_unexpected_state(%d)\n") == 1 && emittedArg("self._raise_unexpected_state(%d)\n", 0, 0, int) == 2 * i
 //@   iteration 0: stream_enters_odd_state: step.IsStream() ==> emitted("self._state = %d\n") == 1 && emittedArg("self._state = %d\n", 0, 0, int) == 2 * i + 1 && emitted("return self._wrap_iterable(value, %d)\n") == 1 && emittedArg("return self._wrap_iterable(value, %d)\n", 0, 0, int) == 2 * (i + 1)
 //@   iteration 0: nonstream_advances: !step.IsStream() ==> emitted("self._state = %d\n") == 1 && emittedArg("self._state = %d\n", 0, 0, int) == 2 * (i + 1) && emitted("return self._wrap_iterable(value, %d)\n") == 0
+
+// Output and diagnostics may not depend on the iteration order of a Go map (C12): decided per `range` over a map.
+//@ map-order C12 package
